@@ -38,7 +38,7 @@ m = {
     ],
     'checks': checks,
     'not_applicable': [{'property_id': k, 'reason': v} for k, v in sorted(NA.NA.items())],
-    'notes': 'See DESIGN.md. Exit 2 + "UNDECIDED" = the machinery could not decide (lost anchor, tool limit); never an alarm.',
+    'notes': 'See DESIGN.md. Exit 0 = every obligation discharged (the proof). Exit 1 = VIOLATION: a Kani counterexample, or obligations that fail in Verus TOGETHER WITH a concrete failing input found on the real code by the bounded stand-in of that unit (units without a stand-in report on the verifier alone, ending no-failing-input-found). Exit 2 + "UNDECIDED" = the machinery could not decide (lost anchor, tool limit, or obligations that fail in the verifier while the stand-in finds no divergence on the real code); never an alarm.',
 }
 json.dump(m, open(os.path.join(VERIF, 'MANIFEST.json'), 'w'), indent=1)
 print('wrote MANIFEST.json with %d checks, %d n/a' % (len(checks), len(NA.NA)))
